@@ -191,7 +191,7 @@ func (s *Set[T]) unsafeIterator() *fun.Iterator[T] {
 // the Set's lock when called.
 func (s *Set[T]) Producer() (out fun.Producer[T]) {
 	defer s.with(s.lock())
-	defer func() { mu := s.mtx.Get(); ft.WhenDo(mu != nil, func() fun.Producer[T] { return out.WithLock(mu) }) }()
+	defer func() { mu := s.mtx.Get(); ft.WhenCall(mu != nil, func() { out = out.WithLock(mu) }) }()
 
 	if s.list != nil {
 		return s.list.Producer()
